@@ -537,7 +537,7 @@ func (g *Gen) havocEntry(st *State, m ModEntry) {
 
 func (g *Gen) covered(key string, lo, hi Term) Term {
 	var alts []Term
-	alts = append(alts, tCmp(">=", lo, g.entryW))
+	alts = append(alts, tCmp(">=", lo, g.entryW), tCmp("<=", hi, lo))
 	for _, t := range g.topMods {
 		if t.Key != "" && t.Key != key {
 			continue
@@ -580,7 +580,7 @@ func (g *Gen) frameCall(st *State, m ModEntry, pos token.Pos, src string) {
 	}
 	var goal Term
 	if m.Key == "" {
-		alts := []Term{tCmp(">=", m.Lo, g.entryW)}
+		alts := []Term{tCmp(">=", m.Lo, g.entryW), tCmp("<=", m.Hi, m.Lo)}
 		for _, t := range g.topMods {
 			if t.Key == "" {
 				alts = append(alts, tAnd(tCmp("<=", t.Lo, m.Lo), tCmp("<=", m.Hi, t.Hi)))
